@@ -9,8 +9,11 @@ import (
 	"math/rand"
 
 	"github.com/cosmos/cosmos-proto/zzverif/glue"
+	"google.golang.org/protobuf/encoding/protowire"
 	"google.golang.org/protobuf/proto"
 	"google.golang.org/protobuf/reflect/protoreflect"
+	"google.golang.org/protobuf/reflect/protoregistry"
+	"google.golang.org/protobuf/runtime/protoiface"
 	"google.golang.org/protobuf/types/dynamicpb"
 )
 
@@ -220,15 +223,24 @@ func wireCase(rep *Report, s *glue.Subject, d MD, idx int) {
 			S = newOf(s.Zero)
 		}
 		var uerr error
+		vi := 0
+		if discard {
+			vi = 1
+		}
+		entry := (idx/4 + 2*vi) % 4 // 0,1: library call; 2: fast path called directly without a nesting budget; 3: with one
 		pan, pmsg := safely(func() {
-			uerr = proto.UnmarshalOptions{Merge: mergeMode, DiscardUnknown: discard}.Unmarshal(stream, S)
+			uerr = unmarshalVia(entry, stream, S, mergeMode, discard)
 		})
+		rep.Count("C03", "decode-entry/"+unmarshalEntryName(entry), 1)
 		mode := "plain"
 		if mergeMode {
 			mode = "merge"
 		}
 		if discard {
 			mode += "+discard"
+		}
+		if entry >= 2 {
+			mode += "," + unmarshalEntryName(entry)
 		}
 		if pan || uerr != nil {
 			rep.Violate(prop, "wire/unmarshal-fails", tn, fmt.Sprintf("(%s) references accept the stream, generated Unmarshal: err=%v %s", mode, uerr, pmsg), rc)
@@ -325,4 +337,31 @@ func wireCase(rep *Report, s *glue.Subject, d MD, idx int) {
 			}
 		}
 	}
+}
+
+// unmarshalVia decodes b into m through one of the entry points of the generated decoder.
+func unmarshalVia(entry int, b []byte, m proto.Message, merge, discard bool) error {
+	if entry < 2 {
+		return proto.UnmarshalOptions{Merge: merge, DiscardUnknown: discard}.Unmarshal(b, m)
+	}
+	pm := m.ProtoReflect().ProtoMethods()
+	if pm == nil || pm.Unmarshal == nil {
+		return proto.UnmarshalOptions{Merge: merge, DiscardUnknown: discard}.Unmarshal(b, m)
+	}
+	if !merge {
+		proto.Reset(m)
+	}
+	in := protoiface.UnmarshalInput{Message: m.ProtoReflect(), Buf: b, Resolver: protoregistry.GlobalTypes}
+	if discard {
+		in.Flags |= protoiface.UnmarshalDiscardUnknown
+	}
+	if entry == 3 {
+		in.Depth = protowire.DefaultRecursionLimit
+	}
+	_, err := pm.Unmarshal(in)
+	return err
+}
+
+func unmarshalEntryName(entry int) string {
+	return []string{"proto.Unmarshal", "proto.Unmarshal", "ProtoMethods().Unmarshal(Depth=0)", "ProtoMethods().Unmarshal(Depth=limit)"}[entry]
 }
